@@ -67,16 +67,19 @@ fn alloc_post<T>(budget: usize, count: usize) {
 }
 
 #[kani::proof_for_contract(AllocTracker::alloc)]
+#[kani::unwind(2)] // fetch_update is a compare-exchange loop; single-threaded it runs once
 fn alloc_contract_u8() {
     alloc_post::<u8>(kani::any(), kani::any());
 }
 
 #[kani::proof_for_contract(AllocTracker::alloc)]
+#[kani::unwind(2)] // fetch_update is a compare-exchange loop; single-threaded it runs once
 fn alloc_contract_f32() {
     alloc_post::<f32>(kani::any(), kani::any());
 }
 
 #[kani::proof_for_contract(AllocTracker::alloc)]
+#[kani::unwind(2)] // fetch_update is a compare-exchange loop; single-threaded it runs once
 fn alloc_contract_16b() {
     alloc_post::<[u64; 2]>(kani::any(), kani::any());
 }
@@ -100,6 +103,7 @@ fn drop_contract() {
 // shrink_limit / expand_limit
 // ------------------------------------------------------------------------------------------------
 #[kani::proof_for_contract(AllocTracker::shrink_limit)]
+#[kani::unwind(2)]
 fn shrink_contract() {
     let before: usize = kani::any();
     let by: usize = kani::any();
@@ -131,105 +135,118 @@ fn expand_contract() {
 }
 
 // ------------------------------------------------------------------------------------------------
-// any sequence of <= 4 operations on a symbolic budget
+// any sequence of <= NOPS operations on a symbolic budget
 // ------------------------------------------------------------------------------------------------
-const NOPS: usize = 4;
+/// assert, then let the solver use the fact (sound: the assumption is exactly what was just checked;
+/// it only spares the solver from re-deriving the invariant of step k while working on step k+1).
+macro_rules! proved {
+    ($c:expr, $m:literal) => {{
+        let c: bool = $c;
+        assert!(c, $m);
+        kani::assume(c);
+    }};
+}
 
-fn alloc_any(t: &AllocTracker, sel: u8, count: usize) -> (Result<AllocHandle, crate::OutOfMemory>, Option<usize>) {
-    match sel % 3 {
-        0 => (t.alloc::<u8>(count), count.checked_mul(1)),
-        1 => (t.alloc::<f32>(count), count.checked_mul(4)),
-        _ => (t.alloc::<[u64; 2]>(count), count.checked_mul(16)),
+struct Ghost {
+    limit: usize,
+    n_ok: usize,
+    n_err: usize,
+}
+
+/// One symbolic operation; returns the handle of a successful alloc.
+fn any_op<const N: usize>(t: &AllocTracker, slots: &mut [Option<AllocHandle>; N], g: &mut Ghost) -> Option<AllocHandle> {
+    let op: u8 = kani::any();
+    let arg: usize = kani::any();
+    let before = left(t);
+    match op & 3 {
+        0 => {
+            // byte counts are symbolic over all of usize; the element-size multiplication is the subject of
+            // gr.alloc_f32 / gr.alloc_16b and is not repeated here
+            let (r, bytes) = (t.alloc::<u8>(arg), arg);
+            match r {
+                Ok(h) => {
+                    assert!(h.bytes == bytes && before >= bytes && left(t) == before - bytes,
+                        "[C13] alloc Ok takes exactly bytes from the budget");
+                    g.n_ok += 1;
+                    return Some(h);
+                }
+                Err(_) => {
+                    assert!(before < bytes && left(t) == before, "[C13] reaching the limit is an error and takes nothing");
+                    g.n_err += 1;
+                }
+            }
+        }
+        1 => {
+            let i: usize = kani::any();
+            kani::assume(i < N);
+            if let Some(h) = slots[i].take() {
+                let b = h.bytes;
+                drop(h);
+                assert!(left(t) - before == b && left(t) >= before, "[C13] drop gives back exactly handle.bytes");
+            }
+        }
+        2 => match t.shrink_limit(arg) {
+            Ok(()) => {
+                assert!(before >= arg && left(t) == before - arg, "[C13] shrink Ok");
+                g.limit -= arg;
+            }
+            Err(_) => assert!(before < arg && left(t) == before, "[C13] shrink Err changes nothing"),
+        },
+        _ => {
+            // precondition of expand_limit: the new limit is representable
+            kani::assume(arg <= usize::MAX - g.limit);
+            t.expand_limit(arg);
+            g.limit += arg;
+        }
     }
+    None
+}
+
+fn sequence<const N: usize>() {
+    let initial: usize = kani::any();
+    let t0 = AllocTracker::with_limit(initial);
+    let t = t0.clone(); // clones share the budget
+    let mut g = Ghost { limit: initial, n_ok: 0, n_err: 0 };
+    let mut slots: [Option<AllocHandle>; N] = std::array::from_fn(|_| None);
+    let mut step = 0;
+    while step < N {
+        let h = any_op(&t, &mut slots, &mut g);
+        slots[step] = h; // slot `step` is still empty: only earlier steps could have filled it
+        // invariant after every operation (mathematical sum: no wrap)
+        let mut outstanding: usize = 0;
+        let mut k = 0;
+        while k < N {
+            if let Some(h) = &slots[k] {
+                let (s, o) = outstanding.overflowing_add(h.bytes);
+                assert!(!o, "[C13] the tracked total is representable");
+                outstanding = s;
+            }
+            k += 1;
+        }
+        proved!(outstanding <= g.limit, "[C13] the tracked total never exceeds the limit");
+        proved!(left(&t0) == g.limit - outstanding, "[C13] bytes_left + outstanding == limit (ghost budget preserved)");
+        step += 1;
+    }
+    kani::cover!(g.n_ok >= 2 && g.n_err >= 1);
+    kani::cover!(g.n_ok == N);
+    // drop everything: the whole (adjusted) budget is available again
+    let mut k = 0;
+    while k < N {
+        slots[k] = None;
+        k += 1;
+    }
+    assert!(left(&t0) == g.limit, "[C13] after dropping every handle bytes_left == initial +- adjustments");
+    assert!(t0.shrink_limit(g.limit).is_ok() && left(&t) == 0, "[C13] shrink_limit(whole budget) succeeds after everything is dropped");
 }
 
 #[kani::proof]
 #[kani::unwind(6)]
 fn sequence_contract() {
-    let initial: usize = kani::any();
-    let t = AllocTracker::with_limit(initial);
-    let t2 = t.clone(); // clones share the budget
-    let mut limit: u128 = initial as u128; // ghost
-    let mut slots: [Option<AllocHandle>; NOPS] = [None, None, None, None];
-    let mut n_ok = 0usize;
-    let mut n_err = 0usize;
+    sequence::<4>();
+}
 
-    let mut step = 0;
-    while step < NOPS {
-        let op: u8 = kani::any();
-        let arg: usize = kani::any();
-        let who = if kani::any() { &t } else { &t2 };
-        match op % 4 {
-            0 => {
-                let sel: u8 = kani::any();
-                // precondition of alloc (see header): the byte count is representable
-                let want = match sel % 3 { 0 => arg.checked_mul(1), 1 => arg.checked_mul(4), _ => arg.checked_mul(16) };
-                kani::assume(want.is_some());
-                let before = left(&t);
-                let (r, bytes) = alloc_any(who, sel, arg);
-                let bytes = bytes.unwrap();
-                match r {
-                    Ok(h) => {
-                        assert!(h.bytes == bytes && before >= bytes && left(&t) == before - bytes,
-                            "[C13] alloc Ok takes exactly bytes from the budget");
-                        slots[step] = Some(h);
-                        n_ok += 1;
-                    }
-                    Err(_) => {
-                        assert!(before < bytes && left(&t) == before,
-                            "[C13] reaching the limit is an error and takes nothing");
-                        n_err += 1;
-                    }
-                }
-            }
-            1 => {
-                let i: usize = kani::any();
-                kani::assume(i < NOPS);
-                let before = left(&t);
-                if let Some(h) = slots[i].take() {
-                    let b = h.bytes;
-                    drop(h);
-                    assert!(left(&t) as u128 == before as u128 + b as u128, "[C13] drop gives back exactly handle.bytes");
-                }
-            }
-            2 => {
-                let before = left(&t);
-                match who.shrink_limit(arg) {
-                    Ok(()) => {
-                        assert!(before >= arg && left(&t) == before - arg, "[C13] shrink Ok");
-                        limit -= arg as u128;
-                    }
-                    Err(_) => assert!(before < arg && left(&t) == before, "[C13] shrink Err changes nothing"),
-                }
-            }
-            _ => {
-                // precondition of expand_limit: the new limit is representable
-                kani::assume(limit + arg as u128 <= usize::MAX as u128);
-                who.expand_limit(arg);
-                limit += arg as u128;
-            }
-        }
-        // invariant after every operation
-        let mut outstanding: u128 = 0;
-        let mut k = 0;
-        while k < NOPS {
-            if let Some(h) = &slots[k] {
-                outstanding += h.bytes as u128;
-            }
-            k += 1;
-        }
-        assert!(left(&t) as u128 + outstanding == limit, "[C13] bytes_left + outstanding == limit (ghost budget preserved)");
-        assert!(outstanding <= limit, "[C13] the tracked total never exceeds the limit");
-        step += 1;
-    }
-    kani::cover!(n_ok >= 2 && n_err >= 1);
-    kani::cover!(n_ok == NOPS);
-    // drop everything: the whole (adjusted) budget is available again
-    let mut k = 0;
-    while k < NOPS {
-        slots[k] = None;
-        k += 1;
-    }
-    assert!(left(&t) as u128 == limit, "[C13] after dropping every handle bytes_left == initial +- adjustments");
-    assert!(t.shrink_limit(limit as usize).is_ok() && left(&t) == 0, "[C13] shrink_limit(whole budget) succeeds after everything is dropped");
+#[kani::proof]
+#[kani::unwind(5)]
+fn sequence3_contract() {
+    sequence::<3>();
 }
